@@ -185,9 +185,19 @@ def poly_matrix(p, opmap, dim, L):
     return out
 
 
-def poly_close(p, q, rtol=1e-12):
-    """Approximate equality for float-coefficient polynomials. Returns (ok, worst key)."""
-    scale = max([abs(v) for v in p.values()] + [abs(v) for v in q.values()] + [0.0])
+def absconv(c):
+    """Coefficient conversion for the magnitude polynomial (sum over paths of products of |coefficients|)."""
+    return abs(complex(c)) if not isinstance(c, Fraction) else abs(float(c))
+
+
+def poly_close(p, q, rtol=1e-12, scale=None):
+    """
+    Approximate equality for float-coefficient polynomials. Returns (ok, worst key). `scale` should be the
+    magnitude of the computation (sum of |coefficient products| over all paths), because cancellations make the
+    result arbitrarily smaller than the rounding errors of its summands.
+    """
+    if scale is None:
+        scale = max([abs(v) for v in p.values()] + [abs(v) for v in q.values()] + [0.0])
     worst = None
     for k in set(p) | set(q):
         a = p.get(k, 0); b = q.get(k, 0)
